@@ -328,7 +328,10 @@ class Impl:
                 cur = conn.execute(f"SELECT COUNT(*) FROM {trg.tables.TRIGGER_RUN_CLAIMS}")
                 nclaims = cur.fetchone()[0]
                 cur.close()
-        return (tuple(describe_valid_conditions(self.app)), tuple(self.launched), self.nsrc, nclaims)
+        # the reference model's pending occurrences are part of the key: a state in which the store has
+        # already lost an occurrence must not be merged with one in which it never existed
+        return (tuple(describe_valid_conditions(self.app)), tuple(self.launched), self.nsrc, nclaims,
+                tuple(sorted(self.model.pending)))
 
 
 # ---------------------------------------------------------------------------
@@ -716,7 +719,8 @@ def run_part(ctx: Ctx) -> None:
         e1.explore_all(ctx, MOD, ds, lambda d: d["bound"])
         for v in ctx.violations:
             sig = v["signature"]
-            if sig.get("cause") == "two-claims-of-one-run-id-succeeded" and "deviations" in sig:
+            if (v.get("replay", {}).get("module") == MOD and "deviations" in sig
+                    and sig.get("cause") == "two-claims-of-one-run-id-succeeded"):
                 # schedule-independent identity (the glue adds the size of the minimised schedule)
                 v["detail"]["deviations_of_minimised_schedule"] = sig.pop("deviations")
     t1 = os.times()
